@@ -3,7 +3,7 @@
    SigSafe.v, SigConn.v, SigQuiesce.v; Print Assumptions follows each. *)
 From Coq Require Import List NArith Bool.
 Import ListNotations.
-Require Import Util SigCore SigLemmas SigInv SigSafe SigSpec SigConn.
+Require Import Util SigCore SigLemmas SigInv SigSafe SigSpec SigConn SigExtra.
 Local Open Scope N_scope.
 
 (* after the destruction no functor refers to the object, every slot that did is empty and without functor, and (outside an emission) is gone from its list *)
@@ -20,3 +20,9 @@ Print Assumptions C02_invalid_never_invoked.
 Theorem C02_never_touches_destroyed_object : forall (fuel : nat) (p : program), match run_program fuel p with Ok _ => True | Err e => safe_err e end.
 Proof. exact ll_safe. Qed.
 Print Assumptions C02_never_touches_destroyed_object.
+
+(* assignment to / explicit notify_callbacks() on a trackable invalidate the slots referring to it
+   just like destruction does (the object itself stays alive) *)
+Theorem C02_notify_invalidates : S_trackable_notify_invalidates.
+Proof. exact trackable_notify_invalidates. Qed.
+Print Assumptions C02_notify_invalidates.
